@@ -83,8 +83,12 @@ def make_trajectory(coords, species, M, time_step=1e-15, temperature=300.0, spec
 
     from gemdat.trajectory import Trajectory
 
-    cls = Species if species_cls == 'Species' else Element
-    species = [cls(s) if isinstance(s, str) else s for s in species]
+    if species_cls == 'SpeciesOx':
+        ox = {'Li': 1, 'Na': 1, 'S': -2, 'P': 5, 'Si': 4, 'O': -2}
+        species = [Species(s, ox.get(s, 0)) if isinstance(s, str) else s for s in species]
+    else:
+        cls = Species if species_cls == 'Species' else Element
+        species = [cls(s) if isinstance(s, str) else s for s in species]
     return Trajectory(
         species=list(species),
         coords=np.array(coords, dtype=float),
